@@ -65,7 +65,8 @@ Inductive cap := CapTI | CapRev | CapOther.
 (* GetMetadata of the installed plugin *)
 Inductive meta :=
 | MetaErr
-| MetaNil                                   (* (nil, nil): breaks the plugin.Plugin contract *)
+| MetaNil                                   (* (nil, nil): breaks the plugin.Plugin contract; since fix 686cc56
+                                               an inconclusive verification, before it a nil dereference *)
 | Meta (ver_valid : bool) (caps : list cap).
 
 (* verifier.pluginManager *)
@@ -85,7 +86,8 @@ Inductive revr :=
                        breaks the Validator contract; since fix d78db00 an ordinary failure *)
 Inductive presp :=
 | PRErr
-| PRNil                                     (* (nil, nil): breaks the plugin.VerifyPlugin contract *)
+| PRNil                                     (* (nil, nil): breaks the plugin.VerifyPlugin contract; since fix
+                                               686cc56 an ordinary plugin error, before it a nil dereference *)
 | PResp (all_processed : bool)      (* every CRITICAL extended attribute with a string key other than the two
                                        plugin headers is listed in processedAttributes (non-critical ones need
                                        not be, fix 6f898df; attributes with other key types are never looked up) *)
@@ -163,7 +165,12 @@ Definition vcaps (caps : list cap) : list cap :=
 
 Inductive disc := DPanic | DErr (e : errc) | DNone | DPlugin (caps : list cap).
 
-Definition discover (pm : pmgr) (sc : scenario) : disc :=
+(* [fixed] = with the nil tests of fix 686cc56 *)
+Definition meta_nil_res (fixed : bool) : disc :=
+  if fixed then DErr XInconclusive      (* "returned an empty get-plugin-metadata response" *)
+  else DPanic.                          (* metadata.Version on a nil GetMetadataResponse pointer *)
+
+Definition discover_gen (fixed : bool) (pm : pmgr) (sc : scenario) : disc :=
   match s_pattr sc with
   | PInvalid => DErr XOther                         (* getVerificationPlugin: err other than not-exist *)
   | pa =>
@@ -175,7 +182,7 @@ Definition discover (pm : pmgr) (sc : scenario) : disc :=
           | PMNil => DErr XInconclusive             (* guard: v.pluginManager == nil *)
           | PMGetErr => DErr XInconclusive
           | PMPlugin MetaErr => DErr XOther
-          | PMPlugin MetaNil => DPanic              (* metadata.Version on a nil GetMetadataResponse pointer *)
+          | PMPlugin MetaNil => meta_nil_res fixed
           | PMPlugin (Meta vv caps) =>
               if negb vv then DErr XInconclusive
               else if s_minver_high sc then DErr XInconclusive
@@ -187,6 +194,8 @@ Definition discover (pm : pmgr) (sc : scenario) : disc :=
       | _ => DNone
       end
   end.
+
+Definition discover := discover_gen true.
 
 Inductive nat_res := NPanic | NStop (e : errc) (rs : list (vtype * bool)) | NGo (rs : list (vtype * bool)).
 
@@ -265,10 +274,15 @@ Inductive psres :=
 | PSPanic
 | PSRet (e : option errc) (content : bool) (rs : list (vtype * bool)).
 
-Definition process_signature (l : level) (pm : pmgr) (sc : scenario) : psres :=
+(* executePlugin answered (nil, nil) *)
+Definition presp_nil_res (fixed : bool) (rs : list (vtype * bool)) : psres :=
+  if fixed then PSRet (Some XOther) true rs   (* "returned an empty verify-signature response" *)
+  else PSPanic.                               (* response.ProcessedAttributes / .VerificationResults on nil *)
+
+Definition process_signature_gen (fixed : bool) (l : level) (pm : pmgr) (sc : scenario) : psres :=
   match s_sig sc with
   | SigOK =>
-      match discover pm sc with
+      match discover_gen fixed pm sc with
       | DPanic => PSPanic
       | DErr e => PSRet (Some e) true [(TInt, false)]
       | d =>
@@ -282,7 +296,7 @@ Definition process_signature (l : level) (pm : pmgr) (sc : scenario) : psres :=
               | (_ :: _) as tv =>
                   match s_presp sc with
                   | PRErr => PSRet (Some XOther) true rs
-                  | PRNil => PSPanic    (* response.ProcessedAttributes / .VerificationResults on nil *)
+                  | PRNil => presp_nil_res fixed rs
                   | PResp allp ti rev =>
                       if negb allp then PSRet (Some XOther) true rs
                       else let '(e, rs') := process_caps l ti rev tv rs in PSRet e true rs'
@@ -295,6 +309,10 @@ Definition process_signature (l : level) (pm : pmgr) (sc : scenario) : psres :=
       end
   | _ => PSRet (Some (XResult TInt)) false [(TInt, true)]
   end.
+
+Definition process_signature := process_signature_gen true.
+(* before fix 686cc56 *)
+Definition process_signature_v0 := process_signature_gen false.
 
 (* ---------- VerificationOutcome.UserMetadata ---------- *)
 (* on a non-nil outcome: guard on EnvelopeContent == nil, then json.Unmarshal *)
@@ -575,11 +593,6 @@ Definition model (i : input) : obs :=
   end.
 
 (* ---------- the contracts of the injected components (input contract) ---------- *)
-Definition sc_wf (sc : scenario) : bool :=
-  match s_presp sc with PRNil => false | _ => true end.
-
-Definition item_wf (it : item) : bool := match it with FetchErr => true | Sig sc => sc_wf sc end.
-
 (* a custom Verifier / BlobVerifier: no error means an outcome without error *)
 Definition impl_wf (impl : vimpl) : bool :=
   match impl with
@@ -591,10 +604,10 @@ Definition impl_wf (impl : vimpl) : bool :=
 (* the documents are as the constructor validated them *)
 Definition sel_wf (d : option sel) : bool := match d with Some SelBadLevel => false | _ => true end.
 
+(* since the fixes d78db00 and 686cc56 there is no contract on the revocation validator or on the
+   verification plugin: whatever they answer, the entry points return normally *)
 Definition wf (i : input) : bool :=
-  sel_wf (v_oci (i_v i)) && sel_wf (v_blob (i_v i)) &&
-  match v_pm (i_v i) with PMPlugin MetaNil => false | _ => true end
-  && sc_wf (i_sc i) && forallb item_wf (n_items (i_n i)) && impl_wf (i_impl i).
+  sel_wf (v_oci (i_v i)) && sel_wf (v_blob (i_v i)) && impl_wf (i_impl i).
 
 (* ---------- boolean equalities ---------- *)
 Definition errc_eqb (a b : errc) : bool :=
